@@ -50,6 +50,9 @@ def run(ck):
     from ..report import RuleView
     from . import c14
     c14.join_score(RuleView(ck, {"C14.2": "C01.9"}))
+    ck.clause("C01.11", "what conflict resolution removes from a segment comes from that segment's own conflicting sub-run (as C15.3): "
+                        "subtracting the other side's sub-run removes almost nothing and both segments keep the overlap")
+    c15.run(RuleView(ck, {"C15.3": "C01.11"}))
     ck.clause("C01.10", "a joined record is made only of segments that were checked against each other (the join bypasses the "
                         "chainer: a segment carried over from one part can cross the other part) (as C08.6)")
     c08._joined_row(RuleView(ck, {"C08.6": "C01.10"}))
@@ -75,7 +78,8 @@ def non_empty_filter(ck, rule):
         raise AnalysisError(f"{fn.where}: execute has no return path")
     ok = True
     for k, pa in enumerate(rets):
-        ok = _judge_filter(ck, rule, fn, pa.value, where(fn, pa.node), worker, suffix="" if len(rets) == 1 else f"#{k}") and ok
+        ok = _judge_filter(ck, rule, fn, pa.value, where(fn, pa.node), worker, suffix="" if len(rets) == 1 else f"#{k}",
+                           assumed=[(c, tv) for c, tv, _ in pa.state.assumptions]) and ok
     return ok
 
 
@@ -87,12 +91,38 @@ def no_empty_rows(ck):
     if not rets:
         raise AnalysisError(f"{fn.where}: execute has no return path")
     for k, pa in enumerate(rets):
-        _judge_filter(ck, "C01.1", fn, pa.value, where(fn, pa.node), worker, suffix="" if len(rets) == 1 else f"#{k}")
+        _judge_filter(ck, "C01.1", fn, pa.value, where(fn, pa.node), worker, suffix="" if len(rets) == 1 else f"#{k}",
+                      assumed=[(c, tv) for c, tv, _ in pa.state.assumptions])
     _written_rows_sources(ck, fn)
 
 
-def _judge_filter(ck, rule, fn, v, w, worker=None, suffix=""):
+def _judge_filter(ck, rule, fn, v, w, worker=None, suffix="", assumed=()):
     ok = None
+    if v[0] == "select":
+        # `return [row] if row is not None else []`: one case per outcome of the test
+        from ..rules.common import select_cases
+        res = True
+        for k, (case, extra) in enumerate(select_cases(v)):
+            res = _judge_filter(ck, rule, fn, case, w, worker, suffix=f"{suffix}/case{k}", assumed=tuple(assumed) + tuple(extra)) and res
+        return res
+    if v[0] in ("list", "tuple") and worker is not None and all(
+            (x[0] == "app" and x[1] == worker.qualname) for x in v[1]):
+        if not v[1]:
+            ck.ok(rule, short(fn) + ":non-empty-filter" + suffix, w, "no row is returned on this path")
+            return True
+        # rows of an in-process call handed back directly: each needs the same test the mapped rows get
+        truths = set()
+        for c, tv in assumed:
+            c0, pos = T.positive(T.as_bool(c))
+            if (tv if pos else not tv):
+                truths.update(c0[1] if c0[0] == "and" else [c0])
+        ok = all(T.mk_attr(x, "alignedPairs") in truths for x in v[1])
+        ck.judge(ok, rule, short(fn) + ":non-empty-filter" + suffix, w,
+                 "rows returned by the parallel map are kept only if they have aligned pairs (a row produced in-process and handed "
+                 "back directly needs the same test: a molecule with seeds but no pair would be written as an empty record)",
+                 found="conditions on this path: " + (", ".join(T.show(c)[:60] for c in truths) or "none"),
+                 required="a condition on the truthiness of <row>.alignedPairs")
+        return ok
     if v[0] == "comp" and v[1] == "list" and len(v[3]) == 1 and v[2][0] == "bv":
         it, ifs = v[3][0]
         is_map = it[0] == "call" and it[1].split(".")[0] == "p_tqdm"
@@ -425,6 +455,9 @@ def _pair_generator(ck, gen_fn, n):
     # idiom A: a, b = tee(range(n)); next(b, None); return zip(a, b)
     if v[0] == "call" and v[1] == "zip" and len(v[2]) == 2:
         a, b = v[2]
+        if a == b and a[0] == "call" and a[1] == "iter":
+            # zip(it, it) over ONE iterator takes two elements per step: the disjoint pairs (0,1), (2,3), ...
+            return False, f"zip of one iterator with itself: {T.show(v)[:120]} yields (0,1), (2,3), ... - every second neighbour pair is skipped"
         if a[0] == "idx" and b[0] == "idx" and a[1] == b[1] and a[1][0] == "call" and a[1][1].endswith("tee") \
                 and a[2] == C(0) and b[2] == C(1):
             base = a[1][2][0]
